@@ -173,6 +173,33 @@ def directed_cases(rng, tier):
     return cases
 
 
+def directed_impl_cases(rng, tier):
+    """implementation against the footprint table only (cheap): every sound register and wave RAM byte written while all
+    four channels play; TAC/TMA/TIMA/DIV written at random divider phases with the timer running"""
+    cases = []
+    ctor, name = CONFIGS[0][1], CONFIGS[0][0]
+    setup = ['sys.w 0xFF26 0x80', 'sys.w 0xFF24 0x77', 'sys.w 0xFF25 0xFF', 'sys.w 0xFF12 0xF3', 'sys.w 0xFF17 0xF3',
+             'sys.w 0xFF1A 0x80', 'sys.w 0xFF1C 0x20', 'sys.w 0xFF21 0xF3', 'sys.w 0xFF14 0x80', 'sys.w 0xFF19 0x80',
+             'sys.w 0xFF1E 0x80', 'sys.w 0xFF23 0x80']
+    n = 0
+    addrs = list(range(0xFF10, 0xFF40))
+    vals = [0x00, 0xFF] if tier == 'quick' else [0x00, 0xFF, 0x1F, 0x80, 0x40]
+    for a in addrs:
+        lines = [ctor]
+        for v in vals + [rng.randrange(256)]:
+            lines += ['sys.w 0xFF26 0x00'] + setup + ['sys.hw %d' % rng.randrange(1, 5000), 'map.snap', 'map.wd %d %d' % (a, v)]
+        cases.append(('p%d_%s' % (n, name), lines))
+        n += 1
+    for rep in range(12 if tier == 'quick' else 120):
+        lines = [ctor, 'sys.w 0xFF06 %d' % rng.randrange(256), 'sys.w 0xFF05 %d' % rng.choice([0xFF, 0xFE, rng.randrange(256)])]
+        for _ in range(8):
+            lines += ['sys.w 0xFF07 %d' % rng.choice([4, 5, 6, 7]), 'sys.hw %d' % rng.randrange(1, 600), 'map.snap',
+                      'map.wd %d %d' % (rng.choice([0xFF07, 0xFF07, 0xFF06, 0xFF04]), rng.choice([0, 1, 2, 3, 4, 5, 6, 7]))]
+        cases.append(('t%d_%s' % (n, name), lines))
+        n += 1
+    return cases
+
+
 IMPL_ONLY = {}
 
 
@@ -181,6 +208,7 @@ def generate(rng, tier):
     cases = make_cases(rng, ca, 'c', 56) + directed_cases(rng, tier)
     ia = impl_addrs(rng, tier)
     impl_cases = make_cases(rng, ia, 'i', 256)
+    impl_cases = impl_cases + directed_impl_cases(rng, tier)
     IMPL_ONLY['cases'] = impl_cases
     IMPL_ONLY['tier'] = tier
     info = dict(exhaustive=(tier != 'quick'),
